@@ -518,6 +518,27 @@ fn fmt_seen(seen: &[(i32, i32)]) -> String {
     s
 }
 
+/// runs a history without keeping the trace: (snapshot after the last operation, user callbacks made)
+pub fn run_silent(hist: &History) -> (String, u64) {
+    let mut buf: Vec<u8> = Vec::new();
+    let saved = std::env::var("ITV_SNAP_EVERY").ok();
+    // only the last snapshot is needed
+    std::env::set_var("ITV_SNAP_EVERY", "1000000000");
+    run_history(&mut buf, 0, hist);
+    match saved {
+        Some(v) => std::env::set_var("ITV_SNAP_EVERY", v),
+        None => std::env::remove_var("ITV_SNAP_EVERY"),
+    }
+    let calls = CALLS.with(|c| c.get());
+    let text = String::from_utf8_lossy(&buf);
+    let last = text.lines().last().unwrap_or("");
+    let snap = match last.find("## ") {
+        Some(p) => last[p + 3..].to_string(),
+        None => String::new(),
+    };
+    (snap, calls)
+}
+
 pub fn run_history<W: Write>(out: &mut W, index: usize, hist: &History) {
     let mut head = format!("H {} {}", hist.coll.name(), index);
     for p in &hist.params {
@@ -557,48 +578,96 @@ pub fn run_history<W: Write>(out: &mut W, index: usize, hist: &History) {
     let bound = hist.ops.len() + 2;
     // ITV_SNAP_EVERY=k: record the state only after every k-th operation (and the last one)
     let snap_every: usize = std::env::var("ITV_SNAP_EVERY").ok().and_then(|s| s.parse().ok()).unwrap_or(1);
+    // ITV_SNAP_KINDS=I,C: additionally record the state after every operation of these kinds
+    let snap_kinds: Vec<String> = std::env::var("ITV_SNAP_KINDS").ok().map(|s| s.split(',').map(|x| x.to_string()).collect()).unwrap_or_default();
+    let injecting = hist.inject.is_some();
+    let is_mapset = matches!(hist.coll, Coll::MapTree | Coll::MapList | Coll::SetTree | Coll::SetList);
     for (op_index, op) in hist.ops.iter().enumerate() {
-        write!(out, "{}", op.text()).unwrap();
-        out.flush().unwrap();
-        let calls_before = CALLS.with(|c| c.get());
-        CURRENT_ID.with(|c| c.set(PROBE_ID));
-        let _ = take_seen();
-        let r = catch_unwind(AssertUnwindSafe(|| match (&mut inst, op) {
-            (Inst::MapTree(c), Op::M(o)) => exec_map(c, &mut held, o),
-            (Inst::MapList(c), Op::M(o)) => exec_map(c, &mut held, o),
-            (Inst::SetTree(c), Op::M(o)) => exec_set(c, &mut held, o, bound),
-            (Inst::SetList(c), Op::M(o)) => exec_set(c, &mut held, o, bound),
-            (Inst::KeyTree(c), Op::K(o)) => exec_key(c, &mut next_id, o),
-            (Inst::KeyList(c), Op::K(o)) => exec_key(c, &mut next_id, o),
-            (Inst::Seg(Some(t)), Op::S(o)) => exec_seg(t, o),
-            (Inst::Seg(None), Op::S(_)) => "notree".into(),
-            _ => panic!("operation does not fit the collection"),
-        }));
-        let ans = match r {
-            Ok(s) => s,
-            Err(e) => {
-                let msg = if let Some(s) = e.downcast_ref::<String>() {
-                    s.clone()
-                } else if let Some(s) = e.downcast_ref::<&str>() {
-                    s.to_string()
-                } else {
-                    "?".into()
-                };
-                format!("!PANIC {}", msg.replace('\n', " ").replace("=>", "->").replace("##", "#"))
+        let mut attempt = 0;
+        loop {
+            attempt += 1;
+            // the state before the operation, to tell whether an injected panic left it untouched
+            let before = if injecting && attempt == 1 { Some(inst.snap()) } else { None };
+            write!(out, "{}", op.text()).unwrap();
+            out.flush().unwrap();
+            let calls_before = CALLS.with(|c| c.get());
+            CURRENT_ID.with(|c| c.set(PROBE_ID));
+            let _ = take_seen();
+            let mut fork_snap: Option<String> = None;
+            let r = catch_unwind(AssertUnwindSafe(|| match (&mut inst, op) {
+                (Inst::KeyTree(c), Op::Fork(f)) => match &**f {
+                    Op::K(o) => {
+                        let mut c2 = c.verif_clone();
+                        let a = exec_key(&mut c2, &mut next_id, o);
+                        fork_snap = Some(KeyColl::snap(&c2));
+                        a
+                    }
+                    _ => panic!("fork of a non-key operation"),
+                },
+                (Inst::KeyList(c), Op::Fork(f)) => match &**f {
+                    Op::K(o) => {
+                        let mut c2 = c.verif_clone();
+                        let a = exec_key(&mut c2, &mut next_id, o);
+                        fork_snap = Some(KeyColl::snap(&c2));
+                        a
+                    }
+                    _ => panic!("fork of a non-key operation"),
+                },
+                (Inst::MapTree(c), Op::M(o)) => exec_map(c, &mut held, o),
+                (Inst::MapList(c), Op::M(o)) => exec_map(c, &mut held, o),
+                (Inst::SetTree(c), Op::M(o)) => exec_set(c, &mut held, o, bound),
+                (Inst::SetList(c), Op::M(o)) => exec_set(c, &mut held, o, bound),
+                (Inst::KeyTree(c), Op::K(o)) => exec_key(c, &mut next_id, o),
+                (Inst::KeyList(c), Op::K(o)) => exec_key(c, &mut next_id, o),
+                (Inst::Seg(Some(t)), Op::S(o)) => exec_seg(t, o),
+                (Inst::Seg(None), Op::S(_)) => "notree".into(),
+                _ => panic!("operation does not fit the collection"),
+            }));
+            let mut injected = false;
+            let ans = match r {
+                Ok(s) => s,
+                Err(e) => {
+                    let msg = if let Some(s) = e.downcast_ref::<String>() {
+                        s.clone()
+                    } else if let Some(s) = e.downcast_ref::<&str>() {
+                        s.to_string()
+                    } else {
+                        "?".into()
+                    };
+                    if msg.starts_with("injected panic") {
+                        injected = true;
+                        "!INJECTED".to_string()
+                    } else {
+                        format!("!PANIC {}", msg.replace('\n', " ").replace("=>", "->").replace("##", "#"))
+                    }
+                }
+            };
+            let seen = take_seen();
+            let calls = CALLS.with(|c| c.get()) - calls_before;
+            let snap = if let Some(fs) = fork_snap {
+                fs
+            } else if injected
+                || (op_index + 1) % snap_every == 0
+                || op_index + 1 == hist.ops.len()
+                || (!snap_kinds.is_empty() && snap_kinds.iter().any(|k| op.text().split(' ').next() == Some(k.as_str())))
+            {
+                catch_unwind(AssertUnwindSafe(|| inst.snap())).unwrap_or_else(|_| "BROKEN snapshot hook panicked".into())
+            } else {
+                "-".into()
+            };
+            let is_key = matches!(hist.coll, Coll::KeyTree | Coll::KeyList);
+            if is_key {
+                writeln!(out, " => {} @ {}#{} ## {}", ans.trim_end(), fmt_seen(&seen), calls, snap).unwrap();
+            } else {
+                writeln!(out, " => {} @ #{} ## {}", ans.trim_end(), calls, snap).unwrap();
             }
-        };
-        let seen = take_seen();
-        let calls = CALLS.with(|c| c.get()) - calls_before;
-        let snap = if (op_index + 1) % snap_every == 0 || op_index + 1 == hist.ops.len() {
-            catch_unwind(AssertUnwindSafe(|| inst.snap())).unwrap_or_else(|_| "BROKEN snapshot hook panicked".into())
-        } else {
-            "-".into()
-        };
-        let is_key = matches!(hist.coll, Coll::KeyTree | Coll::KeyList);
-        if is_key {
-            writeln!(out, " => {} @ {}#{} ## {}", ans.trim_end(), fmt_seen(&seen), calls, snap).unwrap();
-        } else {
-            writeln!(out, " => {} @ #{} ## {}", ans.trim_end(), calls, snap).unwrap();
+            // a map / set operation that panicked before changing anything is issued again, so that
+            // the rest of the history stays inside the contract (a skipped delete followed by an
+            // insert of the same key would not be)
+            if injected && is_mapset && attempt == 1 && before.as_deref() == Some(snap.as_str()) {
+                continue;
+            }
+            break;
         }
     }
 }
